@@ -814,4 +814,114 @@ end
 def resolveImports (vfs : Vfs) (who : Who) (href : Str) (sheet : Sheet) : Res Sheet :=
   resolveRules vfs who href [] sheet
 
+/-! ## Part 4 — the specification of flattening WITH kept imports
+
+`flatSpec` says what the flattened sheet is without any insertion positions: the *groups* of the rules of a
+sheet, in cascade (document, depth-first) order, then the kept @imports *hoisted* to the front (`hoist`).
+The group of an @import that is merged is the marker comment followed by the flattening of the imported sheet,
+re-based against the @import's href (url() values only: `ignoreImportRules=True`), every @import kept in it taken
+over (`keep1`: one whose target was not found is looked for again from the new place); with media, the group is the
+marker comment and one @media rule, or — when the flattened target holds anything but comments and style rules —
+the marker comment and the @import itself. `Lemmas/UrlsKept.lean` proves `resolveImports = flatSpec` wherever
+`flatSpec` has a value (it has none — `unsupported` — for sheets with @namespace rules, whose placement is C15's). -/
+
+/-- the index at which `CSSStyleSheet.insertRule(rule, inOrder=True)` puts an @import (`cssstylesheet.py:716-732`):
+after the last @import, else after a leading @charset or comment, else at the top -/
+def impIndex (t : Sheet) : Nat :=
+  match afterLast isImp t with
+  | some i => i
+  | none => match t with
+    | .charset _ :: _ => 1
+    | .comment _ :: _ => 1
+    | _ => 0
+
+/-- `target.add(r)` for an @import whose sheet is loaded, a comment, style, @media, @page, @font-face or unknown rule -/
+def ins (t : Sheet) (r : Rule) : Sheet := if isImp r then insertAt t (impIndex t) r else t ++ [r]
+
+/-- `for r in rules: target.add(r)` -/
+def run (t : Sheet) (c : List Rule) : Sheet := c.foldl ins t
+
+/-- kept @imports first (after a leading comment), everything else behind them, both in the order they had -/
+def hoist (c : List Rule) : Sheet :=
+  match c with
+  | .comment x :: rest => .comment x :: (rest.filter isImp ++ rest.filter (fun r => !isImp r))
+  | .charset x :: rest => .charset x :: (rest.filter isImp ++ rest.filter (fun r => !isImp r))
+  | _ => c.filter isImp ++ c.filter (fun r => !isImp r)
+
+/-- rules that `CSSStyleSheet.add` appends at the end (same as `Lemmas.isPlain`) -/
+def appended : Rule → Bool
+  | .comment _ => true
+  | .style _ _ => true
+  | .media _ _ => true
+  | .page _ _ _ => true
+  | .fontface _ => true
+  | .unknown _ => true
+  | _ => false
+
+/-- a rule taken over into the sheet with the href `th`: an @import whose target was not found is looked for again
+from there (`cssstylesheet.py:909-911`), anything else is itself; @charset / @namespace: not in the specification -/
+def keep1 (vfs : Vfs) (who : Who) (th : Str) : Rule → Res Rule
+  | .imp href media false _ _ => setHref (vfs.length + 2) vfs who [th] href media
+  | .imp href media true ihref sheet => ⟨.ok (.imp href media true ihref sheet), []⟩
+  | r => if appended r then ⟨.ok r, []⟩ else ⟨.error .unsupported, []⟩
+
+def keepAll (vfs : Vfs) (who : Who) (th : Str) : List Rule → Res (List Rule)
+  | [] => ⟨.ok [], []⟩
+  | r :: rs =>
+    let a := keep1 vfs who th r
+    match a.val with
+    | .error e => ⟨.error e, a.log⟩
+    | .ok x =>
+      let b := keepAll vfs who th rs
+      match b.val with
+      | .error e => ⟨.error e, a.log ++ b.log⟩
+      | .ok xs => ⟨.ok (x :: xs), a.log ++ b.log⟩
+
+mutual
+/-- the groups of the rules of a sheet, concatenated in document order -/
+def cascRules (vfs : Vfs) (who : Who) (th : Str) : List Rule → Res (List Rule)
+  | [] => ⟨.ok [], []⟩
+  | r :: rs =>
+    let a := cascRule vfs who th r
+    match a.val with
+    | .error e => ⟨.error e, a.log⟩
+    | .ok c =>
+      let b := cascRules vfs who th rs
+      match b.val with
+      | .error e => ⟨.error e, a.log ++ b.log⟩
+      | .ok d => ⟨.ok (c ++ d), a.log ++ b.log⟩
+/-- the group one rule of a sheet with the href `th` stands for -/
+def cascRule (vfs : Vfs) (who : Who) (th : Str) : Rule → Res (List Rule)
+  | .charset _ => ⟨.ok [], []⟩
+  | .imp href media true ihref sheet =>
+    let i := cascRules vfs who ihref sheet
+    match i.val with
+    | .error e => ⟨.error e, i.log⟩
+    | .ok ci =>
+      match replRules (replacer href) (hoist ci) with
+      | .error e => ⟨.error e, i.log⟩
+      | .ok rebased =>
+        if media = mediaAll then
+          let k := keepAll vfs who th rebased.1
+          match k.val with
+          | .error e => ⟨.error e, i.log ++ k.log⟩
+          | .ok m => ⟨.ok (.comment (startComment href) :: m), i.log ++ k.log⟩
+        else if rebased.1.all combinable then
+          ⟨.ok [.comment (startComment href), .media media rebased.1], i.log⟩
+        else
+          ⟨.ok [.comment (startComment href), .imp href media true ihref sheet], i.log⟩
+  | r =>
+    let a := keep1 vfs who th r
+    match a.val with
+    | .error e => ⟨.error e, a.log⟩
+    | .ok x => ⟨.ok [x], a.log⟩
+end
+
+/-- **the specification**: the flattened sheet and the fetcher calls made on the way -/
+def flatSpec (vfs : Vfs) (who : Who) (href : Str) (sheet : Sheet) : Res Sheet :=
+  let c := cascRules vfs who href sheet
+  match c.val with
+  | .error e => ⟨.error e, c.log⟩
+  | .ok l => ⟨.ok (hoist l), c.log⟩
+
 end CssVerif.Urls
